@@ -6,4 +6,4 @@ Extraction Language OCaml.
 Extraction "x_c10.ml" cs_layout rows prec_of_bits amax_of_bits plane
   rgb_ycc_convert rgb_gray_convert rgb_rgb_convert
   ycc_rgb_convert gray_rgb_convert rgb_ext_convert grayscale_convert_d rgb_gray_convert_d
-  h2v1_rows h2v2_rows convert565 cmyk_ycck_convert ycck_cmyk_convert.
+  h2v1_rows h2v2_rows convert565 merged565 cmyk_ycck_convert ycck_cmyk_convert.
